@@ -446,8 +446,10 @@ def main():
                            "impl_wall_s": round(t_impl, 1), "coq_shard_wall_s": round(t_coq, 1), "shards": len(shards)},
               "assumptions": list(getattr(mod, "ASSUMPTIONS", [])),
               "wall_s": round(time.time() - t0, 1), "violations": 1 if exit_code else 0}
-        os.makedirs(os.path.join(VERIF, "evidence"), exist_ok=True)
-        json.dump(ev, open(os.path.join(VERIF, "evidence", pid + ".json"), "w"), indent=1, default=str)
+        # evidence describes /repo itself: a run against another tree (VERIF_REPO, mutation self-tests) writes to build/ instead
+        evdir = os.path.join(VERIF, "evidence") if os.path.realpath(boot.REPO) == "/repo" else os.path.join(VERIF, "build", pid)
+        os.makedirs(evdir, exist_ok=True)
+        json.dump(ev, open(os.path.join(evdir, pid + ".json"), "w"), indent=1, default=str)
     print("%s %s: obligations %d/%d, cases %d (in Coq %d), disagreements %d, predicate failures %d, known hits %s, %.0fs -> %s"
           % (pid, tier, pr["discharged"], pr["obligations"], len(cases), len(items), len(bad), len(pred_fail), known_hits,
              time.time() - t0, "OK" if exit_code == 0 else "VIOLATION"))
